@@ -42,6 +42,7 @@ type MonPunish struct {
 
 	// per block
 	pre        *types.AppState
+	inList     map[types.Pubkey]bool
 	expOff     map[uint64]bool
 	expJail    map[uint64]bool
 	punished   map[uint64]bool
@@ -131,12 +132,15 @@ func (m *MonPunish) BeforeBlock(s *Sim, req *BlockReq) {
 	if inGrace {
 		gs = "grace"
 	}
+	// the state's validator list as the accessor shows it right now (after InitChain it is ahead of the committed export:
+	// InitChain elects validators without committing)
 	listed := map[types.TmAddress]types.Pubkey{}
 	inList := map[types.Pubkey]bool{}
-	for _, v := range pre.Validators {
+	for _, v := range s.N.App.CurrentState().Validators().GetValidators() {
 		listed[TmAddrOf(v.PubKey)] = v.PubKey
 		inList[v.PubKey] = true
 	}
+	m.inList = inList
 	candByAddr := map[types.TmAddress]*types.Candidate{}
 	candByPub := map[types.Pubkey]*types.Candidate{}
 	for i := range pre.Candidates {
@@ -631,10 +635,7 @@ func (m *MonPunish) AfterBlock(s *Sim, req *BlockReq, res *BlockRes) {
 		}
 	}
 	// reference windows follow the validator list
-	inPre := map[types.Pubkey]bool{}
-	for _, v := range pre.Validators {
-		inPre[v.PubKey] = true
-	}
+	inPre := m.inList
 	nw := map[types.Pubkey]*[c18Window]bool{}
 	for _, v := range post.Validators {
 		if w := m.win[v.PubKey]; w != nil && inPre[v.PubKey] {
